@@ -150,8 +150,7 @@ def open_existing(ctx, rule='C06.open-existing'):
             for (a, s) in fn.control_deps_transitive(bb):
                 at = fn.term(a)
                 if at['k'] == 'switch':
-                    _, ca = du.slice_operand(at['discr'])
-                    if any(x[0] == 'call' and x[2] == 'std::fs::Metadata::len' for x in ca) and any(x[0] == 'const' and x[1] == 0 for x in ca):
+                    if _is_len_zero_test(fn, du, at['discr']):
                         fresh = True
                         why = 'guarded by a test of the file length against zero'
             # the event sits in a callee: look at the call chain in the trace
@@ -161,8 +160,7 @@ def open_existing(ctx, rule='C06.open-existing'):
                     for (a, s) in cfn.control_deps_transitive(cbb):
                         at = cfn.term(a)
                         if at['k'] == 'switch':
-                            _, ca = cdu.slice_operand(at['discr'])
-                            if any(x[0] == 'call' and x[2] == 'std::fs::Metadata::len' for x in ca) and any(x[0] == 'const' and x[1] == 0 for x in ca):
+                            if _is_len_zero_test(cfn, cdu, at['discr']):
                                 fresh = True
                                 why = 'caller guards it by a test of the file length against zero'
         if fresh:
@@ -181,6 +179,29 @@ def open_existing(ctx, rule='C06.open-existing'):
                 res.append(bad(rule, '%s | %s' % (fn.qual, last_seg(strip_generics(c['path']))),
                                '%s calls %s at %s: an existing database file could be truncated or silently re-created' % (fn.qual, strip_generics(c['path']), fn.loc(bb)), where=fn.loc(bb)))
     return res
+
+
+def _is_len_zero_test(fn, du, discr):
+    """is the switch discriminant exactly `file_len == 0` / `!= 0` (no arithmetic on the length)?"""
+    l = op_local(discr)
+    if l is None:
+        return False
+    ds = du.defs.get(l, [])
+    if len(ds) != 1 or ds[0][1] is None:
+        return False
+    s = fn.blocks[ds[0][0]]['stmts'][ds[0][1]]
+    rv = s['rv']
+    if rv['k'] != 'bin' or rv['op'] not in ('Eq', 'Ne'):
+        return False
+    for a, b in ((rv['a'], rv['b']), (rv['b'], rv['a'])):
+        if op_const_val(b) == 0 and op_local(a) is not None:
+            r = du.root_of(op_local(a), through_calls=False)
+            dd = du.defs.get(r, [])
+            if len(dd) == 1 and dd[0][1] is None:
+                c = callee_of(fn.term(dd[0][0]))
+                if c and c['path'] == 'std::fs::Metadata::len':
+                    return True
+    return False
 
 
 def _creates_new_under(F, ctx, g, p):
